@@ -41,8 +41,8 @@ MANIFEST = {
                   "destination after every step and all registers at the end (this also exposes unintended mutation of "
                   "non-receivers).",
     "level_note": "Trusted: Coq kernel + vm_compute; the hand-written model; harness. Partial: Python object aliasing is "
-                  "harness-checked, not a theorem; moving/fill/statistics are tied by correspondence and falsifier, their "
-                  "map-level specs are proved only for moving windows and fill-constant.",
+                  "harness-checked, not a theorem; for moving windows, statistics, fill_missing and alter_num_variants only "
+                  "well-formedness/trimming is proved, their values are tied by the correspondence and the falsifier.",
 }
 
 NREG = 3
